@@ -345,7 +345,16 @@ class Builtin2Mixin:
         # the new heap is given as a lambda: protected objects / owned containers / tuples keep their contents
         if ids:
             prot = OR(*[z3.Select(st.CL, r) == I(i) for i in ids])
-            st.H = z3.Lambda([r], z3.If(prot, z3.Select(oldH, r), z3.Select(fH, r)))
+            kept = z3.Select(oldH, r)
+            unprot = self.config.get('unprotected_attrs', [])
+            for a in unprot:
+                # attributes that other actions of the system (control requests arriving while unknown code runs or the
+                # coroutine is suspended) do write, through plumpy's own methods: arbitrary afterwards
+                kept = z3.Store(kept, S(a), z3.Select(z3.Select(fH, r), S(a)))
+            st.H = z3.Lambda([r], z3.If(prot, kept, z3.Select(fH, r)))
+            if unprot:
+                self.assumptions_used.add('rely: while unknown code runs or the coroutine is suspended, control requests may arrive; '
+                                          'the attributes ' + ', '.join(unprot) + ' of protected objects are arbitrary afterwards')
         else:
             st.H = fH
         own = st.ghost.get('OWN')
